@@ -449,7 +449,14 @@ def _parse_loop_resets(pm: ParserModel, cfg: CFG) -> Tuple[bool, str]:
     loop_heads = [n for n in cfg.nodes if n.kind == "test" and n.loop is not None]
     keep_tests = [n for n in cfg.nodes if n.kind == "test" and n.cond is not None and "_keep_doxygen" in norm(n.cond)]
     # from the declaration call: every path to the next acquisition test passes a reset
+    from ..booleval import UNKNOWN as _UNK, ev as _bev
+    # the variable holding the looked-up handler: falsy where the declarations parser is called, a function where it is dispatched
+    fn_var = None
+    for c in disp[0].calls():
+        if isinstance(c.func, ast.Name) and any(isinstance(a_, ast.Name) and a_.id == "doxygen" for a_ in c.args):
+            fn_var = c.func.id
     for start, allow_keep in (((disp[0], True),) if merged else ((decl[0], False), (disp[0], True))):
+        env_fn = {fn_var: (None if (start is decl[0] and not merged) else "<handler>")} if fn_var else {}
         seen = set()
         st = [(s, False) for s, lab in start.succ if lab != "exc"]
         while st:
@@ -461,14 +468,33 @@ def _parse_loop_resets(pm: ParserModel, cfg: CFG) -> Tuple[bool, str]:
                 if not (allow_keep and kept):
                     return False, f"after `{short(start.stmt)}` the loop can continue with the old doc text pending"
                 continue
+            decided = _bev(x.cond, dict(env_fn), lambda e_: None) if (x.kind == "test" and x.cond is not None and env_fn) else _UNK
             for s, lab in x.succ:
                 if lab == "exc":
                     continue
+                if decided is not _UNK and lab in ("T", "F") and bool(decided) != (lab == "T"):
+                    continue  # not taken with this handler value
                 k = kept
                 if x in keep_tests:
-                    # `tok.type not in _keep_doxygen`: F edge = kept type
-                    notin = isinstance(x.cond, ast.Compare) and isinstance(x.cond.ops[0], ast.NotIn)
-                    if (lab == "F") == notin:
+                    # on which edge is the token type one of the kept ones?
+                    if _membership_holds(x.cond, lab == "T"):
                         k = True
                 st.append((s, k))
     return True, ""
+
+
+def _membership_holds(cond: ast.AST, truth: bool) -> bool:
+    """does `cond == truth` imply `tok.type in _keep_doxygen`?"""
+    if isinstance(cond, ast.UnaryOp) and isinstance(cond.op, ast.Not):
+        return _membership_holds(cond.operand, not truth)
+    if isinstance(cond, ast.Compare) and len(cond.ops) == 1 and "_keep_doxygen" in norm(cond.comparators[0]):
+        if isinstance(cond.ops[0], ast.In):
+            return truth
+        if isinstance(cond.ops[0], ast.NotIn):
+            return not truth
+    if isinstance(cond, ast.BoolOp):
+        conj = isinstance(cond.op, ast.And)
+        if conj == truth:
+            return any(_membership_holds(v, truth) for v in cond.values)
+        return all(_membership_holds(v, truth) for v in cond.values)
+    return False
